@@ -328,6 +328,7 @@ def check(model, rep, tier):
     raise core.AnalysisError('_ensure_node_in_anf not found')
   env_ = en_.view(keep=('_do_transform_node', '_ensure_fields_in_anf', '_should_transform'))
   np_ = en_.params()[2] if len(en_.params()) > 2 else en_.params()[-1]
+  env_fi = core.FuncInfo(en_.module, env_, cls=en_.cls)
   repl = [c for c in ast.walk(env_) if isinstance(c, ast.Call) and core.norm(c.func) ==
           'self._do_transform_node']
   okt = bool(repl)
@@ -340,7 +341,8 @@ def check(model, rep, tier):
       if pol == 'C' or not (isinstance(tst, ast.Call) and core.dotted(tst.func) ==
                             'isinstance' and len(tst.args) == 2):
         continue
-      if core.norm(tst.args[0]) not in ctx_forms:
+      if core.norm(tst.args[0]) not in ctx_forms and tpl.xnorm(
+          env_fi, tst.args[0], tst) not in ctx_forms:
         continue
       kinds = {core.dotted(k).split('.')[-1] for k in (
           tst.args[1].elts if isinstance(tst.args[1], ast.Tuple) else [tst.args[1]])}
@@ -505,6 +507,20 @@ def check(model, rep, tier):
             return True
       return False
     ok = all(inc[0] in dom[r] and uses_ctr(r) for r in rets)
+  elif rets and any(isinstance(a, ast.Assign) and isinstance(a.targets[0], ast.Attribute)
+                    and core.norm(a.targets[0].value) == 'self' and tpl.xnorm(gs, a.value, a) in (
+                        core.norm(a.targets[0]) + ' + 1', '1 + ' + core.norm(a.targets[0]))
+                    for k, a in g.nodes):
+    # the increment spelled as read / add / store: `n = self.c + 1; self.c = n`
+    st = [i for i, (k, a) in enumerate(g.nodes) if isinstance(a, ast.Assign) and isinstance(
+        a.targets[0], ast.Attribute) and core.norm(a.targets[0].value) == 'self' and
+          tpl.xnorm(gs, a.value, a) in (core.norm(a.targets[0]) + ' + 1',
+                                        '1 + ' + core.norm(a.targets[0]))]
+    ctr = core.norm(g.nodes[st[0]][1].targets[0])
+    dom = g.dominators(skip_labels=('exc',))
+    ok = len(st) == 1 and all(
+        st[0] in dom[r] and (ctr + ' + 1' in tpl.xnorm(gs, g.nodes[r][1].value, g.nodes[r][1])
+                             or ctr in core.norm(g.nodes[r][1].value)) for r in rets)
   elif rets:
     # a counter object: every returned name contains the value of one
     # next(self.<c>) call, <c> being an itertools.count set up in __init__
